@@ -182,20 +182,31 @@ def framebuffer (m : Mem) : Res (Option FbInfo) :=
 
 def isAsciiSpace (b : UInt8) : Bool := b = 9 || b = 10 || b = 11 || b = 12 || b = 13 || b = 32
 
+/-- UTF-8 continuation byte (0x80…0xBF) -/
+def isCont (b : UInt8) : Bool := 0x80 ≤ b.toNat && b.toNat ≤ 0xBF
+
+/-- two-byte white-space runes U+0085 (C2 85) and U+00A0 (C2 A0) -/
+def mbSpace2 (b c : UInt8) : Bool := b = 0xC2 && (c = 0x85 || c = 0xA0)
+
+/-- three-byte white-space runes U+1680 (E1 9A 80), U+2000–U+200A (E2 80 80…8A), U+2028, U+2029,
+U+202F (E2 80 A8/A9/AF), U+205F (E2 81 9F), U+3000 (E3 80 80) -/
+def mbSpace3 (b c d : UInt8) : Bool :=
+  (b = 0xE1 && c = 0x9A && d = 0x80) ||
+  (b = 0xE2 && c = 0x80 && ((0x80 ≤ d.toNat && d.toNat ≤ 0x8A) || d = 0xA8 || d = 0xA9 || d = 0xAF)) ||
+  (b = 0xE2 && c = 0x81 && d = 0x9F) ||
+  (b = 0xE3 && c = 0x80 && d = 0x80)
+
 /-- width in bytes of the white-space rune (`unicode.IsSpace`) that starts here; 0 = none.
-Multi-byte: U+0085, U+00A0, U+1680, U+2000–U+200A, U+2028, U+2029, U+202F, U+205F, U+3000. -/
+These byte sequences are valid shortest-form UTF-8 whose lead byte is never a continuation byte,
+so Go's decoder (which skips one byte on invalid input) always meets them at a rune boundary. -/
 def spaceWidth : List UInt8 → Nat
   | [] => 0
   | b :: rest =>
     if isAsciiSpace b then 1 else
-    match b, rest with
-    | 0xC2, c :: _ => if c = 0x85 || c = 0xA0 then 2 else 0
-    | 0xE1, c :: d :: _ => if c = 0x9A && d = 0x80 then 3 else 0
-    | 0xE2, c :: d :: _ =>
-      if c = 0x80 && ((0x80 ≤ d && d ≤ 0x8A) || d = 0xA8 || d = 0xA9 || d = 0xAF) then 3
-      else if c = 0x81 && d = 0x9F then 3 else 0
-    | 0xE3, c :: d :: _ => if c = 0x80 && d = 0x80 then 3 else 0
-    | _, _ => 0
+    match rest with
+    | c :: d :: _ => if mbSpace2 b c then 2 else if mbSpace3 b c d then 3 else 0
+    | [c] => if mbSpace2 b c then 2 else 0
+    | [] => 0
 
 /-- `strings.Fields` on bytes; `skip` = remaining bytes of a multi-byte space, `cur` = current
 field, reversed -/
